@@ -157,6 +157,24 @@ Fixpoint contains_ci (p s : bytes) : bool :=
   | _ :: t => prefix_ci p s || contains_ci p t
   end.
 
+(* the reading of a user agent WITHOUT scripting: noscript is an ordinary element there and its body is markup
+   (the tokenizer of spec/HtmlTok.v reads it with scripting enabled, as raw text).  The same output with every
+   noscript start / end tag renamed to an element name no tokenizer knows, byte for byte of the same length, so that
+   marker spans stay where they are *)
+Fixpoint without_scripting_aux (k : nat) (s : bytes) : bytes :=
+  match s with
+  | [] => []
+  | c :: t =>
+      let c' := if Nat.eqb k 1 then 49 else c in
+      let k' := if (c =? 60) && prefix_ci (B "noscript") t then 6%nat
+                else if (c =? 60) && prefix_ci (B "/noscript") t then 7%nat
+                else Nat.pred k in
+      c' :: without_scripting_aux k' t
+  end.
+Definition without_scripting (s : bytes) : bytes := without_scripting_aux 0 s.
+Definition placement_ok_without_scripting (o : bytes) (spans : list (nat * nat)) : bool :=
+  placement_ok (without_scripting o) spans.
+
 Definition untracked_rawtext_names : list bytes :=
   [ B "xmp"; B "iframe"; B "noembed"; B "noframes"; B "noscript"; B "plaintext" ].
 
